@@ -18,10 +18,10 @@ def interp(kind='lib'):
 LOOP_KERNELS = ('eval_eu_saturated', 'eval_eg', 'eval_au', 'eval_eu', 'eval_ef')
 
 class EvalLab:
-    def __init__(self, chk, n, k, c=0, labels=(), max_perm=1, attractor='contract', timeout_ms=120000, symbolic_unit=True):
+    def __init__(self, chk, n, k, c=0, labels=(), max_perm=1, attractor='contract', timeout_ms=120000, symbolic_unit=True, order_mode='perm'):
         self.chk, self.n, self.k, self.c = chk, n, k, c
         self.I = interp()
-        self.I.max_perm = max_perm
+        self.I.max_perm = max_perm; self.I.order_mode = order_mode
         self.U = z3.BitVec('U', 1 << c) if (c and symbolic_unit) else None
         self.M = biomodel.Model(n, k, c, unit_colours=self.U)
         biomodel.install(self.I, self.M)
@@ -124,7 +124,7 @@ class EvalLab:
         work = [[]]
         while work:
             prefix = work.pop()
-            ctx = self.new_ctx(prefix); self.I.ctx = ctx
+            ctx = self.new_ctx(prefix); self.I.ctx = ctx; self.I.steps = 0
             try: v = scenario(ctx); o = 'ok'
             except Panic as e: v = str(e); o = 'panic'
             except Infeasible: work.extend(ctx.pending); continue
